@@ -58,7 +58,7 @@ func props() map[string]*propCfg {
 	add(&propCfg{ID: "C17", Level: "fault_enumeration", Families: []famWeight{{"retry", 1, true}}, QuickRuns: 0, ThorSecs: 0})
 	add(&propCfg{ID: "C18", Level: "exploration", Families: []famWeight{{"codec", 1, false}}, QuickRuns: 4000, ThorSecs: 600})
 	add(&propCfg{ID: "C19", Level: "exploration", Families: []famWeight{{"timeline", 1, false}}, QuickRuns: 4000, ThorSecs: 600})
-	add(&propCfg{ID: "C20", Level: "exploration", Families: []famWeight{{"errors", 2, false}, {"relay", 1, false}}, QuickRuns: 4000, ThorSecs: 600})
+	add(&propCfg{ID: "C20", Level: "exploration", Families: []famWeight{{"errors", 2, false}, {"relay", 1, false}, {"close", 1, false}}, QuickRuns: 4000, ThorSecs: 600})
 	return m
 }
 
